@@ -67,8 +67,31 @@ def substitution_family(rng, n):
     return out
 
 
+def starred_probe(ctx, key):
+    """the known finding: a starred element in a tuple / list literal counts as ONE element when the literal is indexed with a
+    constant - wrong value, spurious index error, or a bare starred node that does not compile"""
+    import ast
+    import copy
+
+    env = {"t": (1, 2), "m": 9}
+    for text in ["[*t, m][1]", "(*t, m)[2]", "(*t, m)[0]", "(m, *t)[1]"]:
+        a = ast.parse(text, mode="eval").body
+        want = eval(text, {}, dict(env))
+        ctx.count("starred-probe:" + text, True, tags=["starred element probe"])
+        try:
+            out = simplify.run_simplifier(copy.deepcopy(a))
+            got = eval(compile(ast.fix_missing_locations(ast.Expression(out)), "<probe>", "eval"), {}, dict(env))
+        except Exception as e:
+            got = f"raises {type(e).__name__}"
+        if got != want:
+            ctx.violate({"src": text, "python_original": repr(want), "simplified": repr(got)},
+                        "a tuple / list literal with a starred element indexed with a constant: the starred element is counted as one element", key=key)
+            return
+
+
 def run(ctx):
     comprehension_probe(ctx, "C18-comprehension-target-load-context")
+    starred_probe(ctx, "C18-starred-element-in-indexed-literal")
     simplify.check_queries(ctx, substitution_family(ctx.rng, ctx.n(80, 2000)), "c18-substitution")
     n = ctx.n(1000, 50000)
     done = 0
